@@ -29,9 +29,12 @@ impl Parsable for Glue {
                         )? * negative
                             * i.signum()
                     }
-                    InternalNumber::Dimen(d) => d * negative,
+                    InternalNumber::Dimen(d) => {
+                        super::dimen::attach_sign(input, first_token, d, negative)?
+                    }
                     InternalNumber::Glue(g) => {
-                        return Ok(g * negative);
+                        // TeX.2021.431 negates the components without an overflow test
+                        return Ok(g.wrapping_mul(negative));
                     }
                 }
             }
